@@ -246,6 +246,18 @@ GOLDCB == [Bp("GOLDCB", C2,
 GOLDCBIMP == [GOLDCB EXCEPT !.name = "GOLDCBIMP", !.free = {2, 4, 7}, !.freeq = {2, 7},
                  !.suppliers = << [mkt |-> 7, sup |-> 12, rule |-> TRUE], [mkt |-> 7, sup |-> 4, rule |-> FALSE] >>]
 
+\* a rest-of-the-world sector inside the ExternalSector country (books kept in the NUMERAIRE) gives to households in two
+\* currencies (the same amount variable twice) and receives a gift back
+ROWAID == [Bp("ROWAID", C2,
+           << Sd("A", "GOV", "ConsolidatedGovernment"), [Sd("A", "HH", "Household") EXCEPT !.gift = TRUE],
+              Sd("A", "BUS", "FixedMarginBusiness"), Sd("A", "TF", "TaxFlow"), Sd("A", "LAB", "Market"), Sd("A", "GOOD", "Market"),
+              Sd("B", "GOV", "ConsolidatedGovernment"), Sd("B", "HH", "Household"),
+              Sd("B", "BUS", "FixedMarginBusiness"), Sd("B", "TF", "TaxFlow"), Sd("B", "LAB", "Market"), Sd("B", "GOOD", "Market"),
+              [Sd("EXT", "ROW", "RestOfWorld") EXCEPT !.gift = TRUE] >>, {3, 13})
+        EXCEPT !.freeq = {13}, !.external = "first",
+               !.flows = << Flow(13, 2, "GIFT", FALSE, TRUE), Flow(13, 8, "GIFT", FALSE, TRUE), Flow(2, 13, "GIFT", TRUE, TRUE) >>,
+               !.exo = << Exo(1, "DEM_GOOD"), Exo(7, "DEM_GOOD") >>]
+
 \* ---- three currencies, gifts around the ring A -> B -> C -> A ----------------------------------------------------
 C3cur == << [code |-> "A", cur |-> "AD"], [code |-> "B", cur |-> "BD"], [code |-> "K", cur |-> "KD"] >>
 Econ(cc) == << Sd(cc, "GOV", "ConsolidatedGovernment"), [Sd(cc, "HH", "Household") EXCEPT !.gift = TRUE],
@@ -307,6 +319,6 @@ TWOCAPS == [Bp("TWOCAPS", C1,
               Sd("C", "TF", "TaxFlow"), Sd("C", "LAB", "Market"), Sd("C", "GOOD", "Market") >>, {3, 4, 5, 8})
         EXCEPT !.freeq = {4, 5}, !.exo = << Exo(1, "DEM_GOOD") >>, !.wellformed = FALSE]
 
-AllBlueprints == {TAXOWN, GOLDCBIMP, SIMINF, SELFBUY, TAXBUS, TWOCAPS, RINGFAN, SIMPLAIN, SIMBOOK, SIMEX1BOOK, PCBOOK, REGBOOK, REG2BOOK, MULTIX, TRIREG, TWOBUSX, RING3, REG2, GOLDCB, TWOBUS, TWOGIFTS, SIMBOND, IMPORTRES, NOEXT3, SIMX, SIMR, SIMEXR, JOIN2, JOIN2X, GOLD2, GOLDNOEXT, SIM, SIMEX, SIMCAP, SIMMARGIN, SIMMON, SIMDEP, PC, MULTI, FED, GIFT, GIFT2, IMPORT, NOEXT1, NOEXT2, NOSUP, TWOSUP}
+AllBlueprints == {ROWAID, TAXOWN, GOLDCBIMP, SIMINF, SELFBUY, TAXBUS, TWOCAPS, RINGFAN, SIMPLAIN, SIMBOOK, SIMEX1BOOK, PCBOOK, REGBOOK, REG2BOOK, MULTIX, TRIREG, TWOBUSX, RING3, REG2, GOLDCB, TWOBUS, TWOGIFTS, SIMBOND, IMPORTRES, NOEXT3, SIMX, SIMR, SIMEXR, JOIN2, JOIN2X, GOLD2, GOLDNOEXT, SIM, SIMEX, SIMCAP, SIMMARGIN, SIMMON, SIMDEP, PC, MULTI, FED, GIFT, GIFT2, IMPORT, NOEXT1, NOEXT2, NOSUP, TWOSUP}
 QuickBlueprints == { [b EXCEPT !.free = b.freeq] : b \in AllBlueprints }
 =============================================================================
